@@ -496,6 +496,7 @@ func VerifFRRTextParams(variant int) {
 		a.BFDProfile = "fast"
 		a.VRFName = "red"
 		b.HoldTime = d(90) // keepalive missing: no timers line
+		b.ConnectTime = d(20) // but a connect timer of its own
 		b.DisableMP = true
 	case 3:
 		a.PeerAddress = "fc00::2"
